@@ -157,8 +157,8 @@ func checkTTHRoundTrip(c TTHCase, cv *cov) (v *evid.Violation) {
 	var stream []byte
 	type frameInfo struct {
 		off, hlen int
-		p        ttheader.EncodeParam
-		payload  []byte
+		p         ttheader.EncodeParam
+		payload   []byte
 	}
 	var frames []frameInfo
 	encodeFailed := false
@@ -377,6 +377,40 @@ func checkTTHRoundTrip(c TTHCase, cv *cov) (v *evid.Violation) {
 				return
 			}
 		}
+		// decoded parameters are values of their own: they must survive Release of the reader and reuse of the input
+		var kept []ttheader.DecodeParam
+		var r2 bufiox.Reader
+		cp := append([]byte(nil), stream...)
+		if c.Reader == 1 {
+			r2 = bufiox.NewDefaultReader(faultio.NewScriptReader(cp, faultio.Plan{Chunks: []int{0}, ErrAt: -1}))
+		}
+		for _, fr := range frames {
+			var dp ttheader.DecodeParam
+			var err error
+			if c.Reader == 0 {
+				dp, err = ttheader.DecodeFromBytes(ctx, cp[fr.off:])
+			} else {
+				dp, err = ttheader.Decode(ctx, r2)
+				if err == nil {
+					_, err = r2.Next(dp.PayloadLen)
+				}
+				r2.Release(nil)
+			}
+			if err != nil {
+				v = evid.Failf("second decode pass failed: %v", err)
+				return
+			}
+			kept = append(kept, dp)
+		}
+		for i := range cp {
+			cp[i] = 0xEE
+		}
+		for i, fr := range frames {
+			if !eqIntMap(kept[i].IntInfo, fr.p.IntInfo) || !eqStrMap(kept[i].StrInfo, fr.p.StrInfo) {
+				v = evid.Failf("frame %d: the decoded maps changed after the reader was released / the input buffer was reused (they are views of the buffer, not values)", i)
+				return
+			}
+		}
 	}
 	if p, st := evid.Safe(body); p != nil {
 		return &evid.Violation{Msg: fmt.Sprintf("panic: %v", p), Stack: st}
@@ -391,7 +425,7 @@ func checkTTHRoundTrip(c TTHCase, cv *cov) (v *evid.Violation) {
 	cv.labelIf(c.Frames > 1, "multi_frame")
 	cv.label(fmt.Sprintf("writer_%d_reader_%d", c.Writer, c.Reader))
 	if !encodeFailed && len(frames) > 0 {
-		cv.label(fmt.Sprintf("pad_residue_%d", (frames[0].hlen-14-infoUnpadded(frames[0].p.IntInfo, frames[0].p.StrInfo))))
+		cv.label(fmt.Sprintf("pad_residue_%d", (frames[0].hlen - 14 - infoUnpadded(frames[0].p.IntInfo, frames[0].p.StrInfo))))
 	}
 	cv.nontrivial = !encodeFailed && hasInfo && c.Payload > 0
 	return nil
@@ -541,12 +575,23 @@ func checkTTHDecode(c TTHFrameCase, cv *cov) *evid.Violation {
 		err     error
 		readLen int
 	}
-	for variant := 0; variant < 4; variant++ {
+	for variant := 0; variant < 5; variant++ {
 		var r res
 		r.readLen = -1
+		if variant == 4 && !rf.OK {
+			break
+		}
 		name := ""
 		p, st := safeFault(func() {
 			switch variant {
+			case 4:
+				// the decoded maps must be values of their own: overwrite the input afterwards
+				name = "DecodeFromBytes followed by overwriting the input"
+				cp := append([]byte(nil), in...)
+				r.dp, r.err = ttheader.DecodeFromBytes(ctx, cp)
+				for i := range cp {
+					cp[i] = 0xEE
+				}
 			case 0:
 				name = "DecodeFromBytes (guard page after the input)"
 				r.dp, r.err = ttheader.DecodeFromBytes(ctx, arena.Right(in))
@@ -554,15 +599,18 @@ func checkTTHDecode(c TTHFrameCase, cv *cov) *evid.Violation {
 				name = "DecodeFromBytes (guard page before the input)"
 				r.dp, r.err = ttheader.DecodeFromBytes(ctx, arena.Left(in))
 			case 2:
-				name = "Decode over a bytes reader"
-				br := bufiox.NewBytesReader(append([]byte(nil), in...))
+				// the frame does not start at read offset 0: 5 bytes were consumed before, without a Release
+				name = "Decode over a bytes reader at read offset 5"
+				br := bufiox.NewBytesReader(append([]byte{9, 9, 9, 9, 9}, in...))
+				br.Next(5)
 				r.dp, r.err = ttheader.Decode(ctx, br)
-				r.readLen = br.ReadLen()
+				r.readLen = br.ReadLen() - 5
 			default:
-				name = "Decode over a fragmented stream reader"
-				br := bufiox.NewDefaultReader(faultio.NewScriptReader(in, c.Plan))
+				name = "Decode over a fragmented stream reader at read offset 3"
+				br := bufiox.NewDefaultReader(faultio.NewScriptReader(append([]byte{7, 7, 7}, in...), c.Plan))
+				br.Next(3)
 				r.dp, r.err = ttheader.Decode(ctx, br)
-				r.readLen = br.ReadLen()
+				r.readLen = br.ReadLen() - 3
 			}
 		})
 		if p != nil {
@@ -587,8 +635,7 @@ func checkTTHDecode(c TTHFrameCase, cv *cov) *evid.Violation {
 			return evid.Failf("%s: HeaderLen=%d, want 14 + 4*%d = %d; input %s", name, dp.HeaderLen, rf.SizeField, rf.HeaderLen, hx(in))
 		}
 		wantPL := int(int64(rf.Total) + 4 - int64(rf.HeaderLen))
-		altPL := int(int64(int32(rf.Total)) + 4 - int64(rf.HeaderLen))
-		if dp.PayloadLen != wantPL && !(rf.Total >= 1<<31 && dp.PayloadLen == altPL) {
+		if dp.PayloadLen != wantPL {
 			return evid.Failf("%s: PayloadLen=%d, want total(%d)+4-HeaderLen(%d)=%d; input %s", name, dp.PayloadLen, rf.Total, rf.HeaderLen, wantPL, hx(in))
 		}
 		if uint16(dp.Flags) != rf.Flags || dp.SeqID != rf.Seq || byte(dp.ProtocolID) != rf.Proto {
